@@ -183,8 +183,11 @@ Step ==
                   ELSE IF (s.fl.k \in {"cmp", "alu"}) /\ (a.t = "sec" \/ b.t = "sec")
                   THEN \* data-dependent decision: both outcomes are explored; only Ctx.secbr of them are permitted
                        /\ nsb' = nsb + 1
-                       /\ LET s1 == IF nsb + 1 > Ctx.secbr THEN Err(s, ln, "C09 secret-dependent branch") ELSE s
-                          IN IF Following /\ steps + 2 <= Len(Tr)
+                       /\ LET over == nsb + 1 > Ctx.secbr
+                              s1 == IF over THEN Err(s, ln, "C09 secret-dependent branch") ELSE s
+                          IN IF over /\ ~Following
+                             THEN Commit(s1, 0)      \* reported; the path ends here (a secret-dependent LOOP would never end)
+                             ELSE IF Following /\ steps + 2 <= Len(Tr)
                              THEN Commit(s1, IF Tr[steps + 2] = ins.t THEN ins.t ELSE pc + 1)
                              ELSE \/ Commit(s1, ins.t) \/ Commit(s1, pc + 1)
                   ELSE Commit(Err(s, ln, "unsupported flags for a conditional branch (" \o s.fl.k \o "," \o a.t \o "," \o b.t \o ")"), 0)
